@@ -50,9 +50,10 @@ pub fn complete(
             return complete_arg(&arg, current_cmd, current_dir, pos_index, current_state);
         }
 
-        // Like the real parser, a value of a pending option is not a subcommand
+        // Like the real parser, a value of a pending option or of a positional that is still
+        // being filled is not a subcommand
         let maybe_subcommand = current_cmd.is_subcommand_precedence_over_arg_set()
-            || !matches!(current_state, ParseState::Opt(_));
+            || !matches!(current_state, ParseState::Opt(_) | ParseState::Pos(_));
         if let Some(value) = arg.to_value().ok().filter(|_| maybe_subcommand) {
             if let Some(next_cmd) = current_cmd.find_subcommand(value) {
                 current_cmd = next_cmd;
@@ -635,8 +636,12 @@ fn parse_positional<'a>(
     let pos_arg = cmd
         .get_positionals()
         .find(|p| p.get_index() == Some(pos_index));
+    // A positional that appends keeps accepting values, however many each occurrence takes
     let num_args = pos_arg
-        .and_then(|a| a.get_num_args().map(|r| r.max_values()))
+        .and_then(|a| match a.get_action() {
+            clap::ArgAction::Append => Some(usize::MAX),
+            _ => a.get_num_args().map(|r| r.max_values()),
+        })
         .unwrap_or(1);
 
     let update_state_with_new_positional = |pos_index| -> (ParseState<'a>, usize) {
